@@ -784,7 +784,34 @@ def run(ctx):
                 ctx.ok("C13-R4", "LineSpectralPairs::new(spectrum, self.alpha, self.use_log_gain, stage, gamma) with stage/gamma of the NonZero stage", cm.loc_of(t["span"]))
             else:
                 ctx.fail("C13-R4", vs.path, "constructor arguments", "LineSpectralPairs::new receives %s" % a, cm.loc_of(t["span"]))
-    ctx.note("not decided: the MGLSA filter sections (mglsa.rs), frequency warping, the 0.001 neper law, decay for well-separated frequencies (numerical)")
+        # the filter coefficients of a frame: gnorm(mc2b(lsp2mgc(lsp))) - warping removal (mc2b) first,
+        # gain normalisation on the b-coefficients second - at the first-frame initialisation and per frame
+        chains = []
+        for bb, t in vs.calls():
+            c = t["callee"]
+            if c["k"] == "fndef" and cm.callee_name(c).endswith("Generalized::gnorm"):
+                chains.append((bb, t, eb.at(bb).op(t["args"][0])))
+        outer = []
+        for bb, t, inner in chains:
+            nest = []
+            x = ("call", "gnorm", (inner,))
+            n_ = 0
+            while x[0] == "call" and n_ < 8:
+                nest.append(x[1].rsplit("::", 1)[-1])
+                x = x[2][0] if x[2] else ("?",)
+                n_ += 1
+            outer.append((bb, t, nest))
+        good = [o for o in outer if o[2][:3] == ["gnorm", "mc2b", "lsp2mgc"]]
+        # a chain that feeds another conversion (mc2b(gnorm(..))) shows up as gnorm over lsp2mgc directly
+        if len(outer) >= 2 and len(good) == len(outer):
+            ctx.ok("C13-R4", "filter coefficients = gnorm(mc2b(lsp2mgc(lsp))) at all %d conversion sites" % len(outer), vs.loc())
+        else:
+            for bb, t, nest in outer:
+                if nest[:3] != ["gnorm", "mc2b", "lsp2mgc"]:
+                    ctx.fail("C13-R4", vs.path, "conversion order", "the LSP frame is converted as %s, expected gnorm(mc2b(lsp2mgc(..))): gain normalisation has to act on the b-coefficients, after the warping step" % "(".join(nest[:4]), cm.loc_of(t["span"]))
+            if len(outer) < 2:
+                ctx.fail("C13-R4", vs.path, "conversion sites", "expected the gnorm(mc2b(lsp2mgc(..))) conversion at the first-frame initialisation and per frame, found %d gnorm call(s)" % len(outer), vs.loc())
+    ctx.note("not decided: the 0.001 neper law, decay for well-separated frequencies (numerical)")
     r5_stability(ctx, p)
     r6_mglsa(ctx, p)
     expl = ("Structural clauses of the LSP -> LPC -> MGC conversion: role separation of gain and line spectral frequencies and the order "
